@@ -1,7 +1,7 @@
 //! Which scenarios decide which property, and with what budget.
 
 use crate::framework::{Scenario, Tier};
-use crate::{scen_agg, scen_queue, scen_uow};
+use crate::{scen_agg, scen_emf, scen_queue, scen_uow};
 
 pub fn scenarios(prop: &str) -> Vec<Box<dyn Scenario>> {
     match prop {
@@ -10,13 +10,15 @@ pub fn scenarios(prop: &str) -> Vec<Box<dyn Scenario>> {
         "C05" => vec![Box::new(scen_queue::QueueShutdown)],
         "C06" => vec![Box::new(scen_uow::UowClose)],
         "C13" => vec![Box::new(scen_uow::UowSlots)],
+        "C14" => vec![Box::new(scen_emf::EmfHistory)],
+        "C16" => vec![Box::new(scen_emf::EmfWriterFaults), Box::new(scen_emf::SinkFaults)],
         "C09" => vec![Box::new(scen_queue::QueueOverflow)],
         "C10" => vec![Box::new(scen_agg::Aggregation)],
         _ => vec![],
     }
 }
 
-pub const CLAIMED: [&str; 7] = ["C01", "C04", "C05", "C06", "C09", "C10", "C13"];
+pub const CLAIMED: [&str; 9] = ["C01", "C04", "C05", "C06", "C09", "C10", "C13", "C14", "C16"];
 
 pub struct Budget {
     /// number of runs (quick: exactly this many; thorough: upper bound)
@@ -35,6 +37,8 @@ pub fn budget(prop: &str, tier: Tier) -> Budget {
         "C09" => (150_000, 480),
         "C06" => (150_000, 480),
         "C13" => (150_000, 480),
+        "C14" => (20_000, 480),
+        "C16" => (6_000, 600),
         "C10" => (100_000, 600),
         _ => (20_000, 600),
     };
